@@ -231,6 +231,17 @@ func c18() {
 		if r.Intn(2) == 0 {
 			outFile = filepath.Join(th.Dir, "out", "profile_{{.GOARCH}}.txt")
 			argv = append(argv, "-out", outFile)
+			if r.Intn(2) == 0 {
+				// the output path already holds something longer (an earlier, larger profile): it must be replaced, not patched
+				ga := cx.goarch
+				if ga == "" {
+					ga = "amd64"
+				}
+				os.MkdirAll(filepath.Join(th.Dir, "out"), 0o755)
+				old := "seccomp:\n  default_action: errno\n  syscalls:\n  - names:\n" + strings.Repeat("    - stale_entry_from_an_earlier_profile\n", 3000) + "    action: allow\n"
+				os.WriteFile(strings.ReplaceAll(outFile, "{{.GOARCH}}", ga), []byte(old), 0o644)
+				run.Count("runs_over_existing_longer_output_file", 1)
+			}
 		}
 		if format == "code" && r.Intn(2) == 0 {
 			argv = append(argv, "-pkg", "profile")
